@@ -157,9 +157,17 @@ impl Search {
             self.log_uci_info(depth, Some(start.elapsed().as_millis()), &pv);
         }
 
+        // If not even the first iteration could be completed (the limits or a stop cut it short),
+        // fall back to any legal move; a position without legal moves gets the null move
+        let best_move = self
+            .info
+            .best_move
+            .or_else(|| self.original_board.get_legal_moves().first().copied())
+            .map_or_else(|| "0000".to_string(), |best_move| best_move.to_string());
+
         // Mark the search as finished before reporting, so that a go sent in reply is not refused
         self.stop();
-        self.log(format!("bestmove {}", self.info.best_move.unwrap()).as_str());
+        self.log(format!("bestmove {best_move}").as_str());
     }
 
     /// Initializes the alpha-beta search and returns the best move found
